@@ -29,6 +29,8 @@ import (
 //zx:replace os.Rename zxRename
 //zx:replace os.Remove zxRemove
 //zx:replace io/ioutil.TempFile zxTempFile
+//zx:replace io/ioutil.TempDir zxTempDir
+//zx:replace os.RemoveAll zxRemoveAll
 //zx:replace io/ioutil.ReadFile zxReadFile
 //zx:replace io/ioutil.ReadDir zxReadDir
 //zx:replace (*os.File).Write zxFileWrite
@@ -123,8 +125,27 @@ func zxTempFile(dir, pattern string) (*os.File, error) {
 	return h, nil
 }
 
+func zxTempDir(dir, pattern string) (string, error) {
+	zxTmpSeq++
+	return "/tmp/" + pattern + strconv.Itoa(zxTmpSeq), nil
+}
+
+func zxRemoveAll(path string) error {
+	for name := range zxFS {
+		if name == path || strings.HasPrefix(name, path+"/") {
+			delete(zxFS, name)
+		}
+	}
+	return nil
+}
+
 func zxOpenFile(name string, flag int, perm os.FileMode) (*os.File, error) {
 	mf := zxFS[name]
+	if mf == nil && flag&os.O_CREATE != 0 {
+		zxOp("create " + name)
+		mf = &zxMemFile{}
+		zxFS[name] = mf
+	}
 	if mf == nil {
 		return nil, zxErrNotExist
 	}
